@@ -469,6 +469,13 @@ func (handler *prewrite1BatchReqHandler) handleRegionErr(regionErr *errorpb.Erro
 	if same {
 		return true, nil
 	}
+	// The batch is going to be split and re-sent by other handlers. If an earlier send of this async
+	// commit / 1PC prewrite ended with an RPC error, a copy of it may have been executed: the result is
+	// undetermined whatever the re-sent requests answer. Record it now; by the time drop() looks at the
+	// sender, a failure of the re-sent batches may already have raised prewriteCancelled.
+	if (handler.committer.isAsyncCommit() || handler.committer.isOnePC()) && handler.sender.GetRPCError() != nil && atomic.LoadUint32(&handler.committer.prewriteCancelled) == 0 {
+		handler.committer.setUndeterminedErr(handler.sender.GetRPCError())
+	}
 	err = handler.committer.doActionOnMutations(handler.bo, actionPrewrite{true, handler.action.isInternal, handler.action.hasRpcRetries}, handler.batch.mutations)
 	return false, err
 }
